@@ -686,8 +686,16 @@ def fp_ensures(s):
     got2 = r_term(sum_modes([abs2(G.fn(z3.IntVal(m), b, i, j)) for m in range(M)]))
     meas = r_term(s.measured_amplitudes.fn(b, centre(i, nr), centre(j, nc)))
     even = AND(nr % 2 == 0, nc % 2 == 0)
-    out += [(f"{kind}:exactly-the-measured-amplitudes[even ROI]", implies(even, got2 == meas * meas)),
-            (f"{kind}:exactly-the-measured-amplitudes[odd ROI]", implies(NOT(even), got2 == meas * meas))]
+    if M == 1:
+        out += [(f"{kind}:exactly-the-measured-amplitudes[even ROI]", implies(even, got2 == meas * meas)),
+                (f"{kind}:exactly-the-measured-amplitudes[odd ROI]", implies(NOT(even), got2 == meas * meas))]
+    else:
+        # mixed state: the case split isolates the coefficients that vanish in every mode (a scaling projection cannot restore them)
+        F = cm.spectrum(ctx, s.overlap_array, "ortho")
+        f2 = r_term(sum_modes([abs2(F.fn(z3.IntVal(m), b, i, j)) for m in range(M)]))
+        for roi_lab, roi_c in (("even ROI", even), ("odd ROI", NOT(even))):
+            out += [(f"{kind}:exactly-the-measured-amplitudes[{roi_lab}, coefficient non-zero in some mode]", implies(AND(roi_c, f2 > 0), got2 == meas * meas)),
+                    (f"{kind}:exactly-the-measured-amplitudes[{roi_lab}, coefficient zero in all modes]", implies(AND(roi_c, f2 == 0), got2 == meas * meas))]
     # idempotence: run the REAL body a second time on the projected wave; its spectrum must be the same array
     interp = s.interp
     res2 = interp.call_closure(interp.closure_of(C_FP.real), [s.self, s.measured_amplitudes, res], {})
